@@ -48,6 +48,16 @@ theorem C16_send_sync_bounds :
     unsafeImplSendDrainFilter ≠ .unbounded ∧ unsafeImplSyncDrainFilter ≠ .unbounded := by
   decide
 
+/-- no public method other than `leak` declares a lifetime parameter of its own: a reference a method passes to a
+    callback (`retain`, `dedup_by`, `dedup_by_key`, `drain_filter`) therefore has a fresh, higher-ranked lifetime the
+    callback cannot let escape, and every returned borrow is tied to `self` by elision -/
+theorem C16_only_leak_names_a_lifetime : ∀ a ∈ allApis, declaresLifetime a = true → a = .leak := by
+  decide
+
+/-- the crate root exports no module and re-exports nothing but the four iterator types: the iterator constructors,
+    whose lifetime parameter is tied to nothing (`make_drain_iterator<'a, T>`), cannot be named by a client -/
+theorem C16_internals_unreachable : exportedModules = 0 := by decide
+
 /-! ### (2) the stand-in judgement -/
 
 inductive ElemKind | plain | rc | cell
@@ -175,6 +185,8 @@ end MV.Props.C16
 #print axioms MV.Props.C16.C16_leak_bounded
 #print axioms MV.Props.C16.C16_markers
 #print axioms MV.Props.C16.C16_send_sync_bounds
+#print axioms MV.Props.C16.C16_only_leak_names_a_lifetime
+#print axioms MV.Props.C16.C16_internals_unreachable
 #print axioms MV.Props.C16.C16_mut_borrow_excludes_use
 #print axioms MV.Props.C16.C16_drop_glue_extends_borrow
 #print axioms MV.Props.C16.C16_draining_iterators_have_drop_glue
